@@ -32,6 +32,22 @@ let semver_fields (v : semver) : string =
 let cmp_name = function Eq -> "EQ" | Lt -> "LT" | Gt -> "GT"
 let sv_atoms s = List.map semver_atom_of s
 
+(* ---- PEP 440 helpers ---- *)
+let optn_field = function Some n -> dec_of_n n | None -> "~"
+let pep_atoms s = List.map pep440_atom_of s
+
+let pep_fields (v : pep) : string =
+  let rel = match v.p_release with [] -> "-" | l -> String.concat "," (List.map dec_of_n l) in
+  let pl = match v.p_pre_label with None -> "~" | Some Alpha -> "a" | Some Beta -> "b" | Some Rc -> "rc" in
+  let local =
+    match v.p_local with
+    | None -> "~"
+    | Some [] -> "-"
+    | Some l -> String.concat "," (List.map (function LStr s -> "s:" ^ field_of_str s | LUInt n -> "u:" ^ dec_of_n n) l)
+  in
+  Printf.sprintf "%s %s %s %s %s %s %s %s %s %s" (field_of_str (pep_print v)) (dec_of_n v.p_epoch) rel pl (optn_field v.p_pre_num)
+    (if v.p_post_label then "1" else "0") (optn_field v.p_post_num) (if v.p_dev_label then "1" else "0") (optn_field v.p_dev_num) local
+
 let check_text (name : string) (s : n list) (printed : n list) (normalized : bool) : n list =
   cps_of_ascii "Version: " @ s @ [ n_of_int 10; n_of_int 0x2713 ] @ cps_of_ascii (" Valid " ^ name ^ " format")
   @ if normalized then cps_of_ascii " (normalized: " @ printed @ cps_of_ascii ")" else []
@@ -126,6 +142,68 @@ let dispatch (req : string list) (impl : string list) : string * string =
         in
         ("OK " ^ t, verdict)
     end
+  | [ "PEP"; s ] ->
+    let s = str_of_field s in
+    let m = pep_parse s in
+    let reply = match m with Some v -> "OK " ^ pep_fields v | None -> "ERR" in
+    let spec_acc = rx_accepts pep440_spec (pep_atoms s) in
+    let extract_ok = pep_extract s <> None in
+    let verdict =
+      match impl with
+      | "OK" :: printed :: _ ->
+        if not spec_acc then "BAD:accepts-outside-grammar"
+        else begin
+          (* the printed form must be a fixed point of parse-print and compare equal to the original *)
+          let pr = str_of_field printed in
+          match (pep_parse pr, m) with
+          | Some v2, Some v1 ->
+            if not (str_eqb (pep_print v2) pr) then "BAD:normal-form-not-idempotent"
+            else if pep_cmp v1 v2 <> Eq then "BAD:normal-form-not-equal-to-original"
+            else "OK"
+          | None, _ -> "BAD:printed-form-not-accepted"
+          | _, None -> "NA"
+        end
+      | [ "ERR" ] ->
+        if spec_acc && extract_ok then "BAD:rejects-grammar-member"
+        else if spec_acc then "BAD:rejects-out-of-range-number"
+        else "OK"
+      | _ -> "BAD:not-ok-or-err"
+    in
+    (reply, verdict)
+  | [ "PEC"; a; b ] ->
+    let reply =
+      match (pep_parse (str_of_field a), pep_parse (str_of_field b)) with
+      | Some x, Some y -> cmp_name (pep_cmp x y) ^ " " ^ if pep_eqb x y then "1" else "0"
+      | _ -> "ERR"
+    in
+    (reply, if String.concat " " impl = reply then "OK" else "BAD:order")
+  | "VMAX" :: "pep440" :: _ :: tags ->
+    let parsed = List.map (fun t -> (t, pep_parse (str_of_field t))) tags in
+    if List.exists (fun (_, v) -> v = None) parsed then ("ERR", if impl = [ "ERR" ] then "OK" else "BAD:max-err")
+    else begin
+      let vs = List.map (fun (t, v) -> (t, Option.get v)) parsed in
+      match vs with
+      | [] -> ("NONE", if impl = [ "NONE" ] then "OK" else "BAD:max-none")
+      | first :: rest ->
+        let t, _ = max_by_last (fun (_, x) (_, y) -> pep_cmp x y) first rest in
+        let verdict =
+          match impl with
+          | [ "OK"; it ] -> (
+            match List.assoc_opt it vs with
+            | None -> "BAD:max-not-a-tag"
+            | Some iv -> if List.for_all (fun (_, x) -> pep_cmp x iv <> Gt) vs then "OK" else "BAD:not-maximal")
+          | _ -> "BAD:max-not-ok"
+        in
+        ("OK " ^ t, verdict)
+    end
+  | [ "CHK"; "pep440"; s ] ->
+    let s = str_of_field s in
+    let reply =
+      match pep_check s with
+      | Some (p, nz) -> "OK " ^ field_of_str (check_text "PEP440" s p nz)
+      | None -> "ERR"
+    in
+    (reply, if String.concat " " impl = reply then "OK" else "BAD:check-verdict-or-text")
   | [ "CHK"; "semver"; s ] ->
     let s = str_of_field s in
     let reply =
